@@ -30,8 +30,10 @@ from __future__ import annotations
 import ast
 import re
 
-from ..astutil import call_name, calls_in, norm, single_def_value, stores_to, walk_no_nested
-from .c04 import marker, rule_suffix
+from ..algebra import AlgebraError, normal_form, poly_equal
+from ..astutil import call_name, calls_in, eval_pred, names_in, norm, single_def_value, stores_to, walk_no_nested
+from .c04 import (SPLITS, SeqView, Undecided, _ix, _ph, closed, elem_form, index_param, marker, ret_elts, rule_suffix,
+                  show_parts)
 
 GRID = 'gridding/grid.py'
 SHARE_FN = 'Gridder._cell_idxs_touched_by_trajectory_with_state_and_integrated_vars'
@@ -153,6 +155,135 @@ def rule_lookup(ctx, m, rule):
                        'spaced axis, which the gridder does not require', line=x.lineno)
 
 
+POINT_ROLES = ('lats', 'altitudes', 'times', 'state_variables')
+PI_ATOMS = ('np.pi', 'numpy.pi', 'math.pi', 'pi')
+
+
+def _role_sequences(view, x, at):
+    """(role, base, alternatives) of one returned component: role is the array parameter (or tuple-of-arrays
+    parameter) it is built from"""
+    try:
+        alts = view.seq(x, at)
+        bases = {p[1] for parts in alts for p in parts if p[0] in ('slice', 'whole')}
+        if not alts:
+            return None, None, []
+        if len(bases) == 1 and next(iter(bases)) in view.params:
+            b = next(iter(bases))
+            return b, b, alts
+        raise Undecided(f'`{norm(x)[:60]}` mixes {sorted(bases)}')
+    except Undecided as first:
+        try:
+            calts = view.coll(x, at)
+        except Undecided:
+            raise first
+        out, role, base = [], None, None
+        for a in calts:
+            if a[0] == 'empty':
+                continue
+            _, src, var, expr, at2, bound = a
+            if role not in (None, src):
+                raise Undecided(f'`{norm(x)[:60]}` is built from {role} and {src}')
+            role, base = src, var
+            out += view.seq(expr, at2, bound)
+        return role, base, out
+
+
+def _antimeridian_side(view, part):
+    """sign of π of the inserted longitude for crossing sign -1 and +1: {-1: ±1, 1: ±1}"""
+    _, x, at, bound = part
+    e = closed(view, x, at, bound)
+    ps = sorted(n for n in names_in(e) if n in view.params)
+    if len(ps) != 1:
+        raise Undecided(f'inserted longitude `{norm(e)[:60]}` depends on {ps} (expected the crossing sign only)')
+
+    def pick(x_, val):
+        if isinstance(x_, ast.IfExp):
+            try:
+                return pick(x_.body if eval_pred(x_.test, {ps[0]: val}) else x_.orelse, val)
+            except ValueError as ex:
+                raise Undecided(f'condition `{norm(x_.test)[:50]}`: {ex}')
+        return x_
+    out = {}
+    for val in (-1, 1):
+        try:
+            r = normal_form(pick(e, val), {}, {ps[0]: val})
+        except AlgebraError as ex:
+            raise Undecided(f'inserted longitude `{norm(e)[:60]}`: {ex}')
+        sign = None
+        for pi in PI_ATOMS:
+            for sg in (1, -1):
+                want = ast.Name(id=pi, ctx=ast.Load()) if '.' not in pi else ast.parse(pi, mode='eval').body
+                if poly_equal(r, normal_form(ast.UnaryOp(op=ast.USub(), operand=want) if sg < 0 else want, {})):
+                    sign = sg
+        out[val] = sign
+    return out, norm(e)
+
+
+def rule_split_points(ctx, m):
+    """Every path through a split function returns, for latitude / altitude / time / each state variable, the way-points
+    on its side of the crossing plus ONE inserted point that is a plain copy of the crossing segment's starting
+    element k; the inserted longitude is ±π on the side the path is on."""
+    for part, qn in SPLITS:
+        sp = m.func(qn)
+        view = SeqView(sp)
+        n = 0
+        for ri, r in enumerate(view.returns()):
+            tag = f'{part} part, return #{ri + 1}'
+            for x, at in ret_elts(view, r):
+                role, base, alts = _role_sequences(view, x, at)
+                if role not in POINT_ROLES + ('lons',):
+                    continue
+                for parts in alts:
+                    desc = show_parts(parts)
+                    elems = [p for p in parts if p[0] == 'elem']
+                    rest = [p for p in parts if p[0] != 'elem']
+                    if len(elems) != 1:
+                        ctx.ob('C05-R1', sp, f'{tag}: {role} has one inserted antimeridian point in {desc}', False,
+                               (f'on the path that returns at line {r.lineno} the {part} part\'s {role} are `{desc}` without a point on '
+                                'the antimeridian: the leg of the crossing segment on this side is not gridded (its cells receive nothing)')
+                               if not elems else f'`{desc}` inserts {len(elems)} points', line=r.lineno)
+                        continue
+                    katoms = index_param(view, [(rest, base)] + ([(elems, base)] if role != 'lons' else []))
+                    if len(katoms) != 1 or not katoms <= set(sp.params):
+                        ctx.undecided('C05-R1', sp, tag, f'`{desc}` is not cut at one index parameter ({sorted(map(str, katoms))})')
+                    k = next(iter(katoms))
+                    if part == 'first':
+                        okk = len(rest) == 1 and rest[0][0] == 'slice' and rest[0][2] in (None, (None, 0)) and rest[0][3] == (k, 1) \
+                            and parts[-1][0] == 'elem'
+                    else:
+                        okk = len(rest) == 1 and rest[0][0] == 'slice' and rest[0][2] == (k, 1) and rest[0][3] is None \
+                            and parts[0][0] == 'elem'
+                    ctx.ob('C05-R1', sp, f'{tag}: {role} keeps points {show_parts(rest)}', okk,
+                           'points up to (from) the crossing, the inserted point at the antimeridian end' if okk else
+                           f'`{desc}`: the retained point range of the split changed (expected the points up to / from element {k} + 1 '
+                           'with the inserted point at the crossing end)', line=r.lineno, nontrivial=not okk)
+                    if role == 'lons':
+                        side, shown = _antimeridian_side(view, elems[0])
+                        want = {-1: 1, 1: -1} if part == 'first' else {-1: -1, 1: 1}
+                        ok = side == want
+                        ctx.ob('C05-R1', sp, f'{tag}: meets the antimeridian at {shown[:60]}', ok,
+                               'the side of ±π the path is on' if ok else
+                               'the inserted longitude is on the wrong side of the antimeridian', line=r.lineno)
+                        continue
+                    f, marks, _, shown = elem_form(view, elems[0], base)
+                    n += 1
+                    ph = _ph(k, 0)
+                    ok = poly_equal(f, normal_form(ast.Name(id=ph, ctx=ast.Load()), {}))
+                    if ok:
+                        why = 'the crossing segment\'s starting point'
+                    else:
+                        single = next((mk for mk in marks if poly_equal(f, normal_form(ast.Name(id=mk, ctx=ast.Load()), {}))), None)
+                        if single is not None:
+                            why = (f'the inserted antimeridian point copies {base}[{_ix(marks[single])}], a point other than the crossing '
+                                   f'segment\'s start {base}[{k}]')
+                        else:
+                            why = (f'the inserted antimeridian point\'s value is `{shown[:90]}`, not a copy of the crossing segment\'s '
+                                   f'starting element {base}[{k}]: the pieces of that segment on this side of the antimeridian are '
+                                   'reported with the altitude / time cell (state value) of a different point than the segment\'s start')
+                    ctx.ob('C05-R1', sp, f'{tag}: inserted point takes {role}[{k}]', ok, why, line=r.lineno)
+        ctx.floor(f'C05-R1/{part}', n, 4, f'inserted-point values in the {part} split (latitude, altitude, time, state)')
+
+
 def run(ctx):
     prog = ctx.prog
     m = prog.module(GRID)
@@ -233,34 +364,10 @@ def run(ctx):
            'roles of the four arrays agree' if ok else 'latitude/longitude arrays of the intersection result are swapped')
 
     # ---- R1: split repeats element i -------------------------------------------------
-    for part, qn in (('first', 'Gridder._dateline_split_first_segment'), ('second', 'Gridder._dateline_split_second_segment')):
-        sp = m.func(qn)
-        n = 0
-        for x in ast.walk(sp.node):
-            if isinstance(x, ast.Call) and call_name(x) == 'np.array' and x.args and isinstance(x.args[0], ast.List) \
-                    and len(x.args[0].elts) == 1 and isinstance(x.args[0].elts[0], ast.Subscript):
-                e = x.args[0].elts[0]
-                base = norm(e.value)
-                if base in ('lats', 'altitudes', 'times', 'variable', 'var'):
-                    n += 1
-                    ok = norm(e.slice) == 'dateline_crossing_idx'
-                    ctx.ob('C05-R1', sp, f'{part} part: inserted point takes {base}[{norm(e.slice)}]', ok,
-                           'the crossing segment\'s starting point' if ok else
-                           'the inserted antimeridian point copies a point other than the crossing segment\'s start',
-                           line=e.lineno)
-        ctx.floor(f'C05-R1/{part}', n, 4, f'inserted-point copies in the {part} split')
-        # slices of the retained points
-        sl = sorted({norm(s.slice) for s in ast.walk(sp.node) if isinstance(s, ast.Subscript) and isinstance(s.slice, ast.Slice)
-                     and norm(s.value) in ('lats', 'lons', 'altitudes', 'times', 'variable', 'var')})
-        want = [':dateline_crossing_idx', ':dateline_crossing_idx + 1'] if part == 'first' else ['dateline_crossing_idx + 1:']
-        ok = sl == want
-        ctx.ob('C05-R1', sp, f'{part} part keeps points {sl}', ok, 'points up to (from) the crossing' if ok else
-               'the retained point ranges of the split changed')
-        lon_ins = [norm(x) for x in ast.walk(sp.node) if isinstance(x, ast.IfExp) and 'np.pi' in norm(x)]
-        want_ins = 'np.pi if dateline_crossing_sign == -1 else -np.pi' if part == 'first' else '-np.pi if dateline_crossing_sign == -1 else np.pi'
-        ok = lon_ins == [want_ins]
-        ctx.ob('C05-R1', sp, f'{part} part meets the antimeridian at {lon_ins}', ok,
-               'the side of ±π the path is on' if ok else 'the inserted longitude is on the wrong side of the antimeridian')
+    try:
+        rule_split_points(ctx, m)
+    except Undecided as e:
+        ctx.undecided('C05-R1', (GRID, 'Gridder._dateline_split_*'), 'antimeridian split', str(e))
 
     # ---- R5: direction signs come from the coordinates themselves ------------------------
     hz = m.func('Gridder._trajectory_intersection_points_and_cells_horizontal')
